@@ -254,6 +254,9 @@ type Service struct {
 	OnMessage func(sc *SvcConn, m client.MessagePayload)
 	// OnReady is called when the client's Ready arrives (full connections).
 	OnReady func(sc *SvcConn, nextID uint64)
+	// BeforeAccept, if set, runs after the register was read and before the answer (if any) is
+	// written: what a hostile service sends ahead of its accept.
+	BeforeAccept func(sc *SvcConn, mode string)
 	lastValidAccept *client.AcceptRegister
 }
 
@@ -375,6 +378,9 @@ func (s *Service) handleRegister(sc *SvcConn, reg *client.Register) {
 		mode = s.AcceptMode(sc)
 	}
 	sc.AcceptMode = mode
+	if s.BeforeAccept != nil {
+		s.BeforeAccept(sc, mode)
+	}
 	if mode == "none" {
 		return
 	}
